@@ -3,7 +3,7 @@ import os
 
 import numpy as np
 
-from .. import env, core, gen, synth, spec, symcodec, view
+from .. import env, core, gen, synth, spec, symcodec, view, histcorr
 from seismic_zfp.conversion import SgzConverter  # noqa: E402
 
 ASSUMPTIONS = ["symbolic decoder: 'bitwise identical on every real voxel' is a statement about which source unit each output "
@@ -14,7 +14,35 @@ RULE = ("synthetic default-layout 2-bit sources with each dimension below/at/abo
         "equal the source's; non-2-bit / non-default-layout inputs must be refused without output")
 
 
+def model_units(ctx, model, fi, out, desc):
+    """K: Model/Reblock.units (which source unit every output unit holds, zero-filled ones included) vs the real output"""
+    lay = fi.lay
+    req = f"reblock {lay.n[0]} {lay.n[1]} {lay.n[2]} {lay.bs[0]} {lay.bs[1]} {lay.bs[2]} {lay.u}"
+    ctx.stats['corr_requests'] += 1
+    ans = model.ask(req)
+    if out is None:
+        real = 'err assertion'
+    else:
+        ho, _ = spec.read_header(out)
+        with open(out, 'rb') as fo:
+            fo.seek(ho.data_start())
+            raw = np.frombuffer(fo.read(spec.DISK * ho.data_blocks), dtype=np.uint8)
+        ids = raw.reshape(-1, lay.u)[:, :min(lay.u, 8)].astype(np.int64)
+        idv = sum(ids[:, b_] << (8 * b_) for b_ in range(ids.shape[1]))   # source unit + 1, 0 = zero-filled
+        real = f'ok {len(idv)} {histcorr.digest(idv)}'
+    if ans != real:
+        ctx.corr_fail('Model.Reblock', req, ans, real, desc)
+
+
 def run(ctx):
+    model = core.Model()
+    try:
+        run_(ctx, model)
+    finally:
+        model.close()
+
+
+def run_(ctx, model):
     rng = gen.rng_for(ctx.seed, 'c12')
     n_files = 50 if ctx.quick else 600
     ext = [2, 5, 63, 64, 65, 67, 68, 127, 128, 129, 4, 60]
@@ -34,6 +62,7 @@ def run(ctx):
                     env.quiet(c.convert_to_adv_sgz, out)
                 ctx.fail('unsupported input was not refused', {'n': n, 'bs': bs, 'q': q})
             except Exception:
+                model_units(ctx, model, fi, None, {'n': n, 'bs': bs, 'q': q})
                 if os.path.exists(out):
                     ctx.fail('refused re-block left an output file', {'n': n, 'bs': bs, 'q': q})
             continue
@@ -61,6 +90,7 @@ def run(ctx):
             except Exception as e:  # noqa
                 ctx.fail(f're-block of a supported file failed: {type(e).__name__}: {str(e)[:120]}', desc)
                 continue
+            model_units(ctx, model, fi, out, desc)
             probs = spec.conformance_problems(out)
             h, _ = spec.read_header(out)
             if h.bs != (64, 64, 4):
